@@ -66,6 +66,7 @@ type lenEval struct {
 	problems []string
 	loopVar  types.Object
 	locals   map[types.Object]string // local -> atom (e.g. lo -> packlen(x))
+	tagLocals map[types.Object]string // local -> union selector it was defined as
 }
 
 func (e *lenEval) prob(pos token.Pos, f string, a ...interface{}) {
@@ -230,11 +231,51 @@ func (e *lenEval) eval(x ast.Expr) *linForm {
 	return out
 }
 
+// tagName: rr.F, rr.F & K, or a local that was defined as one of those.
+func (e *lenEval) tagName(x ast.Expr) (string, bool) {
+	c := e.c
+	x = ast.Unparen(x)
+	if n, ok := e.operandName(x); ok {
+		return n, true
+	}
+	if be, isB := x.(*ast.BinaryExpr); isB && be.Op == token.AND {
+		if n, ok2 := e.operandName(be.X); ok2 {
+			if k, isK := c.exprConst(be.Y); isK {
+				return fmt.Sprintf("%s&%#x", n, k), true
+			}
+		}
+	}
+	if id, ok := x.(*ast.Ident); ok {
+		if t, ok := e.tagLocals[c.Info.Uses[id]]; ok {
+			return t, true
+		}
+	}
+	return "", false
+}
+
 func (e *lenEval) stmts(list []ast.Stmt, into *linForm) (returned bool) {
 	c := e.c
 	for _, s := range list {
 		switch st := s.(type) {
+		case *ast.DeclStmt:
+			// a named constant: its uses are evaluated by the type checker
+			if gd, ok := st.Decl.(*ast.GenDecl); ok && gd.Tok == token.CONST {
+				continue
+			}
+			e.prob(st.Pos(), "unrecognised statement")
 		case *ast.AssignStmt:
+			// t := rr.F & K : a union selector kept in a local
+			if st.Tok == token.DEFINE && len(st.Lhs) == 1 && len(st.Rhs) == 1 && e.acc != nil {
+				if id, ok := st.Lhs[0].(*ast.Ident); ok {
+					if t, ok := e.tagName(st.Rhs[0]); ok {
+						if e.tagLocals == nil {
+							e.tagLocals = map[types.Object]string{}
+						}
+						e.tagLocals[c.Info.Defs[id]] = t
+						continue
+					}
+				}
+			}
 			if len(st.Lhs) == 1 && len(st.Rhs) == 1 {
 				if st.Tok == token.DEFINE && e.acc == nil {
 					if id, ok := st.Lhs[0].(*ast.Ident); ok {
@@ -289,6 +330,66 @@ func (e *lenEval) stmts(list []ast.Stmt, into *linForm) (returned bool) {
 				}
 			}
 			if !okForm {
+				// if t == A { ... } else if t == B { ... } [else { ... }]: the union switch written as a chain
+				var parts []string
+				tag := ""
+				chainOK := true
+				var cur ast.Stmt = st
+				for cur != nil && chainOK {
+					switch n := cur.(type) {
+					case *ast.IfStmt:
+						if as, isAs := n.Init.(*ast.AssignStmt); isAs && as.Tok == token.DEFINE && len(as.Lhs) == 1 && len(as.Rhs) == 1 {
+							// if t := rr.F & K; t == A { ...
+							id, isId := as.Lhs[0].(*ast.Ident)
+							t, isT := e.tagName(as.Rhs[0])
+							if !isId || !isT {
+								chainOK = false
+								break
+							}
+							if e.tagLocals == nil {
+								e.tagLocals = map[types.Object]string{}
+							}
+							e.tagLocals[c.Info.Defs[id]] = t
+						} else if n.Init != nil {
+							chainOK = false
+							break
+						}
+						be, isB := ast.Unparen(n.Cond).(*ast.BinaryExpr)
+						if !isB || be.Op != token.EQL {
+							chainOK = false
+							break
+						}
+						lhs, rhs := be.X, be.Y
+						if _, isK := c.exprConst(lhs); isK {
+							lhs, rhs = rhs, lhs
+						}
+						k, isK := c.exprConst(rhs)
+						t, isT := e.tagName(lhs)
+						if !isK || !isT || (tag != "" && tag != t) {
+							chainOK = false
+							break
+						}
+						tag = t
+						inner := newForm()
+						e.stmts(n.Body.List, inner)
+						parts = append(parts, fmt.Sprint(k)+"=>"+inner.String())
+						cur = n.Else
+					case *ast.BlockStmt:
+						inner := newForm()
+						e.stmts(n.List, inner)
+						parts = append(parts, "default=>"+inner.String())
+						cur = nil
+					default:
+						chainOK = false
+					}
+				}
+				if chainOK && tag != "" && len(parts) > 0 {
+					sort.Strings(parts)
+					into.Atoms["switch("+tag+"){"+strings.Join(parts, "; ")+"}"] += 1
+					okForm = true
+				}
+			}
+			if !okForm {
 				e.prob(st.Pos(), "unrecognised conditional length term")
 			}
 		case *ast.RangeStmt:
@@ -305,13 +406,9 @@ func (e *lenEval) stmts(list []ast.Stmt, into *linForm) (returned bool) {
 			into.Atoms["sum("+n+": "+inner.String()+")"] += 1
 		case *ast.SwitchStmt:
 			// gateway union
-			tag, ok := e.operandName(st.Tag)
-			if be, isB := ast.Unparen(st.Tag).(*ast.BinaryExpr); !ok && isB && be.Op == token.AND {
-				if n, ok2 := e.operandName(be.X); ok2 {
-					if k, isK := c.exprConst(be.Y); isK {
-						tag, ok = fmt.Sprintf("%s&%#x", n, k), true
-					}
-				}
+			tag, ok := "", false
+			if st.Tag != nil {
+				tag, ok = e.tagName(st.Tag)
 			}
 			if !ok || st.Init != nil {
 				e.prob(st.Pos(), "unrecognised switch")
